@@ -33,7 +33,7 @@ pub fn emit(seed: u64) -> Vec<InboxToken> {
             let footer = gen_opt_text(&mut r).map(|f| f.chars().take(16).collect::<String>());
             let assertion = if proto.has_assertion() { gen_opt_text(&mut r).map(|f| f.chars().take(16).collect::<String>()) } else { None };
             let km = keys::resolve(&key);
-            if let Ok(Outcome::OkStr(text)) = world::core_issue(proto, &km, &[], &payload, footer.as_deref(), assertion.as_deref(), 0) {
+            if let Ok(Outcome::OkStr(text)) = world::core_issue(proto, &km, &[], &payload, footer.as_deref(), assertion.as_deref(), 0, false) {
                 out.push(InboxToken { proto, key, payload, footer, assertion, text });
             }
         }
